@@ -268,7 +268,7 @@ def startup_admin_only(before, after):
     return users(before) == [] and users(after) == [ADMIN_HEX] and strip(before) == strip(after)
 
 
-def classify_restart_diff(comp, a, b, case):
+def classify_restart_diff(comp, a, b, case, phase=None):
     """stable key of the known finding that explains a difference in component `comp`, or 'none'"""
     ds = json.dumps([a, b])
     if "ghost" in ds:
@@ -279,6 +279,25 @@ def classify_restart_diff(comp, a, b, case):
     if comp == "mcp":
         return "C01:mcp-toolspec-roundtrip"
     if comp == "namespace":
+        # user namespaces (flag bit 2) must come back with the same id and name, whatever weak bits they also
+        # carry; only the marker record and the weak CONFIG/NAMING bits / weak-only namespaces are recorded findings
+        def users(x, ids):
+            lst = x[0] if x and isinstance(x[0], list) else []
+            return sorted((e.get("id"), e.get("name"), bool(e.get("flag", 0) & 2)) for e in lst
+                          if isinstance(e, dict) and e.get("id") in ids)
+        # namespaces the history created with NamespaceReq::Set (what the API does) and did not delete afterwards
+        set_ids = set()
+        for ph in case["phases"][:phase if phase is not None else len(case["phases"])]:
+            for q in ph["reqs"]:
+                nr = q.get("NamespaceReq") if isinstance(q, dict) else None
+                if not nr:
+                    continue
+                if "Set" in nr and nr["Set"].get("namespace_id") not in ("", "public", "__already_sync"):
+                    set_ids.add(nr["Set"]["namespace_id"])
+                if "Delete" in nr:
+                    set_ids.discard(nr["Delete"].get("id"))
+        if users(a, set_ids) != users(b, set_ids):
+            return "none"
         return "C01:namespace-already-sync-marker" if "__already_sync" in ds else "C01:weak-namespace-flags-not-restored"
     if comp in ("sequences", "config") and racy:
         return "C01:compaction-concurrent-apply"
@@ -618,7 +637,7 @@ def run(chk, replay=None):
                     # node creates the default `admin` user again through a new raft write (log grows by one entry)
                     out_of_scope += 1
                     continue
-                key = classify_restart_diff(comp, before[comp], after[comp], c)
+                key = classify_restart_diff(comp, before[comp], after[comp], c, i)
                 diff_count[comp + ":" + key] = diff_count.get(comp + ":" + key, 0) + 1
                 chk.classify(key, "%s served after the restart differs from %s served before the stop (phase %d, threshold %d, %s): %s"
                              % (comp, comp, i, c["threshold"], "paced" if c.get("pace") else "racing compaction", d),
